@@ -25,6 +25,9 @@ class LogBytesIO(io.BytesIO):
         return n
 
 
+last_inner = None      # the file object handed to the most recently built crypto wrapper
+
+
 def build_real(node, leaves):
     """node: ['bio', bytes] | ['sub', off, size, node] | ['merge', [[node, size], ...]] | ['cw', node] | ['opf', bytes]"""
     from pyctr.fileio import SubsectionIO, SplitFileMerger, CloseWrapper
@@ -55,6 +58,8 @@ def build_real(node, leaves):
         e = envsetup.install()
         eng = e.CryptoEngine()
         inner = build_real(node[3], leaves)
+        global last_inner
+        last_inner = inner
         if kind == 'cbc':
             eng.set_normal_key(0x10, node[1])
             return eng.create_cbc_io(0x10, inner, node[2])
